@@ -233,7 +233,7 @@ prop("C07", "fault_enumeration",
      "later; oracle: after a quiet period everything is delivered exactly once and confirmed, every release satisfies the C02 oracle, ranges transmitted after "
      "a restart are disjoint from the ranges the receiver listed to that generation, delivered versions are not transmitted again, sent-log records per "
      "version <= 1 + crashes; non-trivial = the crash falls after the first transmission and before everything is confirmed",
-     [dict(pkg="stagex", test="TestC07Sim", world="W1", quick=1200, thorough=40000, per_proc=60, shrink_runs=150,
+     [dict(pkg="stagex", test="TestC07Sim", world="W1", quick=2400, thorough=40000, per_proc=60, shrink_runs=150,
            required_classes=["crash-before:request", "crash-before:cache-persist", "crash-before:scan", "second-crash", "multi-thread"])],
      SIM_ASSUME + ["a crash inside one action (half-written request) is represented by transport faults followed by the crash",
                    "crash indexes are drawn (1..160, 1-2 per scenario), not exhaustively enumerated",
